@@ -463,7 +463,10 @@ def eval_bandpass(ctx, c):
 def gen_delay(rng):
     F = rng.randint(1, 6)
     freqs = [856e6 + k * 208984.375 for k in range(F)]
-    d = rng.choice([float('nan'), 0.0, rng.uniform(-5e-9, 5e-9), rng.uniform(-1e-7, 1e-7), 1e-12])
+    # an infinite delay is an invalid solution, not a missing one: its correction is not a number (so the data are
+    # left as stored, zero-weighted and flagged), never the unit correction of a missing delay
+    d = rng.choice([float('nan'), 0.0, rng.uniform(-5e-9, 5e-9), rng.uniform(-1e-7, 1e-7), 1e-12,
+                    rng.choice([float('inf'), float('-inf')])])
     return dict(kind='delay', freqs=freqs, delay=d)
 
 
@@ -480,7 +483,7 @@ def eval_delay(ctx, c):
         out = calc_delay_correction(sensor, (0, 1), np.array(c['freqs']))
         got = np.asarray(out[2])
         spec = cvals(node[1])
-        ctx.tag('delay-nan' if math.isnan(d) else 'delay')
+        ctx.tag('delay-nan' if math.isnan(d) else ('delay-inf' if math.isinf(d) else 'delay'))
         k = close(got, spec, 1e-5)
         if k is not None:
             return f'delay correction for delay {d} at freq {c["freqs"][k]} is {got[k]}, expected exp(-2 pi i d f) = {spec[k]}', False
@@ -495,7 +498,8 @@ def gen_delayhist(rng):
     F = rng.randint(1, 4)
     freqs = [856e6 + k * 208984.375 for k in range(F)]
     n = rng.randint(2, 4)
-    delays = [rng.choice([float('nan'), float('nan'), 0.0, rng.uniform(-5e-9, 5e-9), rng.uniform(-5e-9, 5e-9)])
+    delays = [rng.choice([float('nan'), float('nan'), 0.0, rng.uniform(-5e-9, 5e-9), rng.uniform(-5e-9, 5e-9),
+                          rng.choice([float('inf'), float('-inf')])])
               for _ in range(n)]
     return dict(kind='delayhist', freqs=freqs, delays=delays)
 
@@ -628,7 +632,8 @@ def gen_pipeline(rng):
     fx['seq'] = (fx['seq'] * T)[:T]
     return dict(kind='pipeline', T=T, F=F, C=C, b_parts=parts, seed=rng.randrange(2 ** 31), flux=fx,
                 substreams=rng.random() < 0.4,
-                overrides=rng.choice(['none', 'empty', 'some', 'some']),
+                overrides=rng.choice(['none', 'empty', 'some', 'some', 'default']),
+                earlier=rng.random() < 0.35,
                 ptype=rng.choice(['K', 'B', 'G', 'G', 'GPHASE', 'GAMP_PHASE']),
                 inp=rng.choice(['m000h', 'm000v', 'm001h', 'm001v']), nan_rate=rng.choice([0.0, 0.15, 0.3]))
 
@@ -709,9 +714,22 @@ def eval_pipeline(ctx, c):
         override = None
     elif c['overrides'] == 'empty':
         override = {}
+    elif c['overrides'] == 'default':
+        override = {}           # the keyword left out: documented default "no overrides"
     else:
         override = {nm: rng.choice([9.0, 0.0, 2.0]) for nm in rng.sample(TARGET_NAMES, 2)}
-    cal_freqs = add_applycal_sensors(cache, attrs, freqs, 'l1', subs, gaincal_flux=override)
+    given = None if override is None else dict(override)
+    kw = {} if c['overrides'] == 'default' else dict(gaincal_flux=override)
+    if c.get('earlier'):
+        # an earlier registration in the same process (another data set or stream) with other measured fluxes and the
+        # same override object (or the same default): it must leave nothing behind for this one
+        import copy
+        cache0 = SensorCache(copy.deepcopy(raw), timestamps=np.arange(T, dtype=float), dump_period=1.0, props=SENSOR_PROPS)
+        attrs0 = dict(attrs, measured_flux={nm: 64.0 for nm in TARGET_NAMES})
+        add_applycal_sensors(cache0, attrs0, freqs, 'l1', subs, **kw)
+        ctx.tag('pipeline-earlier-registration')
+    cal_freqs = add_applycal_sensors(cache, attrs, freqs, 'l1', subs, **kw)
+    override = given
     if attrs['measured_flux'] != dict(c['flux']['table']):
         # the overrides belong to this call only: the stream's measured fluxes must stay what the pipeline measured
         # (a later open of the same stream without overrides would otherwise be scaled by stale values)
